@@ -257,7 +257,7 @@ class PEval:
         """Call a trait method on an abstract receiver: the impl of the receiver's type, else the trait's provided body."""
         recv = deref(args[0]) if args else None
         adt = recv.adt if isinstance(recv, (Struct, Enum)) else None
-        for path in (["<%s as %s>::%s" % (adt, trait, name)] if adt else []) + ["%s::%s" % (trait, name)]:
+        for path in (["<%s as %s>::%s" % (adt, trait, name), "<&mut %s as %s>::%s" % (adt, trait, name), "<&%s as %s>::%s" % (adt, trait, name)] if adt else []) + ["%s::%s" % (trait, name)]:
             fn = self.lib.fn(path)
             if fn is not None and thir.body_of(fn):
                 return self.call_fn(fn, args, depth)
@@ -989,6 +989,14 @@ class PEval:
         if isinstance(a0, list) and fname in ("push", "push_back") and len(args) == 2:
             a0.append(args[1])
             return UNIT
+        if isinstance(a0, (list, str, PyMap, PySet)) and fname in ("reserve", "reserve_exact", "shrink_to_fit", "shrink_to"):
+            return UNIT
+        if fname in ("from_utf8", "from_utf8_lossy", "from_utf8_unchecked") and len(args) == 1 and isinstance(a0, list) and all(isinstance(x, int) and 0 <= x < 256 for x in a0):
+            try:
+                txt = bytes(a0).decode("utf-8")
+                return txt if fname != "from_utf8" else ok(txt)
+            except UnicodeDecodeError:
+                return err(Struct("#Utf8Error", {})) if fname == "from_utf8" else bytes(a0).decode("utf-8", "replace")
         if isinstance(a0, list) and fname in ("extend_from_slice", "append") and len(args) == 2:
             other = args[1].rest() if isinstance(args[1], Iter) else args[1]
             if isinstance(other, str):
